@@ -95,6 +95,90 @@ impl<M: Hash + Eq, A: Ord + Hash> Default for Orswot<M, A> {
 //@end
 }
 
+impl<M: Hash + Clone + Eq, A: Ord + Hash + Clone> CmRDT for Orswot<M, A> {
+    type Op = Op<M, A>;
+    type Validation = <VClock<A> as CmRDT>::Validation;
+    open spec fn cm_inv(&self) -> bool { params_ok::<M, A>() && self.wf() }
+    open spec fn cm_pre(&self, op: &Op<M, A>) -> bool { op is Rm ==> nz(op->Rm_clock@) }
+
+//@extract fn src/orswot.rs "CmRDT for Orswot" validate_op
+    fn validate_op(&self, op: &Self::Op) -> /*@ (r: @*/ Result<(), Self::Validation> /*@ ) @*/
+    //@ ensures
+    //@     // C16: an add is accepted iff its dot does not skip one of its actor's updates; removes always
+    //@     op is Rm ==> r is Ok,
+    //@     op is Add ==> (r is Ok <==> op->Add_dot.counter <= cnt(self.cl(), op->Add_dot.actor) + 1),
+    {
+        match op {
+            Op::Add { dot, .. } => self.clock.validate_op(dot),
+            Op::Rm { .. } => Ok(()),
+        }
+    }
+//@end
+
+//@extract fn src/orswot.rs "CmRDT for Orswot" apply
+    fn apply(&mut self, op: Self::Op)
+    //@ ensures
+    //@     // --- Rm: exactly apply_rm with the named members
+    //@     op is Rm ==> {
+    //@         &&& final(self).cl() == old(self).cl()
+    //@         &&& forall|m: M| #[trigger] final(self).ec(m) == (if op->Rm_members@.contains(m) { vsub(old(self).ec(m), op->Rm_clock@) } else { old(self).ec(m) })
+    //@         &&& final(self).defs() == (if vle(op->Rm_clock@, old(self).cl()) { old(self).defs() } else { old(self).defs().insert(op->Rm_clock, final(self).defs()[op->Rm_clock]) })
+    //@         &&& (!vle(op->Rm_clock@, old(self).cl()) ==> final(self).defs().contains_key(op->Rm_clock) && final(self).defs()[op->Rm_clock]@ == old(self).dm(op->Rm_clock).union(op->Rm_members@.to_set()))
+    //@     },
+    //@     // --- Add already seen (duplicate / stale): nothing changes
+    //@     (op is Add && cnt(old(self).cl(), op->Add_dot.actor) >= op->Add_dot.counter) ==> *final(self) == *old(self),
+    //@     // --- new Add: every named member gains the dot, the clock learns it, pending removes are re-applied
+    //@     (op is Add && cnt(old(self).cl(), op->Add_dot.actor) < op->Add_dot.counter) ==> {
+    //@         let d = op->Add_dot;
+    //@         let ms = op->Add_members@;
+    //@         &&& final(self).cl() == old(self).cl().insert(d.actor, d.counter)
+    //@         &&& forall|m: M, a: A| #![trigger cnt(final(self).ec(m), a)] cnt(final(self).ec(m), a) == ({
+    //@                 let e = if ms.contains(m) { vapp(old(self).ec(m), d.actor, d.counter) } else { old(self).ec(m) };
+    //@                 if covered_by(old(self).defs(), m, a, cnt(e, a)) { 0 } else { cnt(e, a) } })
+    //@         &&& forall|k: VClock<A>| #![trigger final(self).defs().contains_key(k)] final(self).defs().contains_key(k) <==> (old(self).defs().contains_key(k) && !vle(k@, final(self).cl()))
+    //@         &&& forall|k: VClock<A>| #![trigger final(self).defs()[k]] final(self).defs().contains_key(k) ==> final(self).defs()[k]@ == old(self).defs()[k]@
+    //@     },
+    {
+        match op {
+            Op::Add { dot, members } => {
+                if self.clock.get(&dot.actor) >= dot.counter {
+                    // we've already seen this op
+                    return;
+                }
+                //@ let ghost ms = members@;
+
+                for member in /*@ it: @*/ members
+                //@ invariant
+                //@     params_ok::<M, A>(), self.wf(), it.seq() == ms, dot.counter > 0,
+                //@     self.cl() == old(self).cl(), self.defs() == old(self).defs(),
+                //@     forall|m: M| #[trigger] self.ec(m) == (if exists|j: int| 0 <= j < it.index@ && ms[j] == m { vapp(old(self).ec(m), dot.actor, dot.counter) } else { old(self).ec(m) }),
+                {
+                    //@ let ghost pre = *self;
+                    let member_vclock = /*@ shim_hashmap_entry_or_default(&mut @*/ self.entries /*@<*/ .entry( /*@>*/ /*@ , @*/ member) /*@<*/ .or_default() /*@>*/ ;
+                    //@ let ghost mv0 = member_vclock@;
+                    //@ let dc = dot.clone();
+                    //@ proof { assert(cloned(dot.actor, dc.actor)); assert(dc.actor == dot.actor); }
+                    member_vclock.apply( /*@<*/ dot.clone() /*@>*/ /*@ dc @*/ );
+                    //@ proof { assert(member_vclock@ == vapp(mv0, dot.actor, dot.counter)); lemma_apply_add_step(*old(self), pre, *self, ms, it.index@, dot.actor, dot.counter); }
+                }
+
+                //@ let ghost al = *self;
+                //@ proof { assert forall|m: M| #[trigger] al.ec(m) == (if ms.contains(m) { vapp(old(self).ec(m), dot.actor, dot.counter) } else { old(self).ec(m) }) by { if ms.contains(m) { let j = choose|j: int| 0 <= j < ms.len() && ms[j] == m; } } }
+                //@ proof { assert(self.clock.cm_inv()); }
+                self.clock.apply(dot);
+                //@ proof { lemma_add_mid_wf(*self); }
+                //@ let ghost mid = *self;
+                self.apply_deferred();
+                //@ proof { assert(mid.ents() == al.ents()); assert forall|m: M| #[trigger] mid.ec(m) == al.ec(m) by {} }
+            }
+            Op::Rm { clock, members } => {
+                self.apply_rm( /*@ shim_vec_collect_hashset( @*/ members /*@<*/ .into_iter().collect() /*@>*/ /*@ ) @*/ , clock);
+            }
+        }
+    }
+//@end
+}
+
 impl<M: Hash + Clone + Eq, A: Ord + Hash + Clone> Orswot<M, A> {
 //@extract fn src/orswot.rs "Orswot" new
     pub fn new() -> /*@ (r: @*/ Self /*@ ) @*/
@@ -132,6 +216,67 @@ impl<M: Hash + Clone + Eq, A: Ord + Hash + Clone> Orswot<M, A> {
             clock: ctx.clock,
             members: /*@ shim_once_collect_vec( @*/ /*@<*/ std::iter::once( /*@>*/ member ) /*@<*/ .collect() /*@>*/ ,
         }
+    }
+//@end
+
+//@extract fn src/orswot.rs "Orswot" contains
+    pub fn contains(&self, member: &M) -> /*@ (r: @*/ ReadCtx<bool, A> /*@ ) @*/
+    //@ requires params_ok::<M, A>(),
+    //@ ensures
+    //@     // C07: add context = replica clock, remove context = exactly the member's surviving witnesses (empty iff absent)
+    //@     r.add_clock@ == self.cl(), r.rm_clock@ == self.ec(*member), r.val == self.ents().contains_key(*member),
+    {
+        let member_clock_opt = self.entries.get(member);
+        let exists = member_clock_opt.is_some();
+        ReadCtx {
+            add_clock: self.clock.clone(),
+            rm_clock: member_clock_opt.cloned().unwrap_or_default(),
+            val: exists,
+        }
+    }
+//@end
+
+//@extract fn src/orswot.rs "Orswot" read
+    pub fn read(&self) -> /*@ (r: @*/ ReadCtx<HashSet<M>, A> /*@ ) @*/
+    //@ requires params_ok::<M, A>(), clone_ok::<M>(),
+    //@ ensures r.add_clock@ == self.cl(), r.rm_clock@ == self.cl(), r.val@ == self.ents().dom(),
+    {
+        ReadCtx {
+            add_clock: self.clock.clone(),
+            rm_clock: self.clock.clone(),
+            val: /*@ shim_hashmap_keys_cloned_collect(& @*/ self.entries /*@<*/ .keys().cloned().collect() /*@>*/ /*@ ) @*/ ,
+        }
+    }
+//@end
+
+//@extract fn src/orswot.rs "Orswot" read_ctx
+    pub fn read_ctx(&self) -> /*@ (r: @*/ ReadCtx<(), A> /*@ ) @*/
+    //@ requires params_ok::<M, A>(),
+    //@ ensures r.add_clock@ == self.cl(), r.rm_clock@ == self.cl(),
+    {
+        ReadCtx {
+            add_clock: self.clock.clone(),
+            rm_clock: self.clock.clone(),
+            val: (),
+        }
+    }
+//@end
+
+    // OUT OF REACH (assumed, bounded stand-in `orswot_iter`): `entries.iter().map(move |..| ReadCtx{..})`
+    // returns an opaque Map adapter (see VClock::iter).
+    #[verifier::external_body]
+//@extract fn src/orswot.rs "Orswot" iter
+    pub fn iter(&self) -> /*@ (r: @*/ impl Iterator<Item = ReadCtx<&M, A>> /*@ ) @*/
+    //@ ensures r.obeys_prophetic_iter_laws(), r.decrease() is Some,
+    //@     params_ok::<M, A>() ==> forall|i: int| 0 <= i < r.remaining().len() ==> {
+    //@         let x = #[trigger] r.remaining()[i];
+    //@         self.ents().contains_key(*x.val) && x.add_clock@ == self.cl() && x.rm_clock@ == self.ec(*x.val) },
+    {
+        self.entries.iter().map(move |(m, clock)| ReadCtx {
+            add_clock: self.clock.clone(),
+            rm_clock: clock.clone(),
+            val: m,
+        })
     }
 //@end
 
@@ -362,6 +507,55 @@ pub proof fn lemma_apply_deferred_done<M: Hash + Eq, A: Ord + Hash>(old_: Orswot
         assert(d[vs[j].0] == vs[j].1);
     }
 }
+
+pub proof fn lemma_apply_add_step<M: Hash + Eq, A: Ord + Hash>(old_: Orswot<M, A>, pre: Orswot<M, A>, post: Orswot<M, A>, ms: Seq<M>, idx: int, a: A, n: u64)
+    requires
+        0 <= idx < ms.len(), pre.wf(), n > 0,
+        forall|m: M| #[trigger] pre.ec(m) == (if exists|j: int| 0 <= j < idx && ms[j] == m { vapp(old_.ec(m), a, n) } else { old_.ec(m) }),
+        post.cl() == pre.cl(), post.defs() == pre.defs(),
+        post.ents().contains_key(ms[idx]), post.ents()[ms[idx]]@ == vapp(pre.ec(ms[idx]), a, n),
+        forall|m: M| #![trigger post.ents().contains_key(m)] m != ms[idx] ==> (post.ents().contains_key(m) == pre.ents().contains_key(m)),
+        forall|m: M| #![trigger post.ents()[m]] m != ms[idx] && post.ents().contains_key(m) ==> post.ents()[m] == pre.ents()[m],
+    ensures
+        post.wf(),
+        forall|m: M| #[trigger] post.ec(m) == (if exists|j: int| 0 <= j < idx + 1 && ms[j] == m { vapp(old_.ec(m), a, n) } else { old_.ec(m) }),
+{
+    let member = ms[idx];
+    assert forall|m: M| #[trigger] post.ec(m) == (if exists|j: int| 0 <= j < idx + 1 && ms[j] == m { vapp(old_.ec(m), a, n) } else { old_.ec(m) }) by {
+        if m == member {
+            assert(0 <= idx < idx + 1 && ms[idx] == m);
+            assert(post.ec(m) == vapp(pre.ec(m), a, n));
+            if exists|j: int| 0 <= j < idx && ms[j] == m {
+                assert(pre.ec(m) == vapp(old_.ec(m), a, n));
+                assert(vapp(vapp(old_.ec(m), a, n), a, n) =~= vapp(old_.ec(m), a, n));
+            } else {
+                assert(pre.ec(m) == old_.ec(m));
+            }
+        } else {
+            assert(post.ents().contains_key(m) == pre.ents().contains_key(m));
+            if post.ents().contains_key(m) { assert(post.ents()[m] == pre.ents()[m]); }
+            assert(post.ec(m) == pre.ec(m));
+            if exists|j: int| 0 <= j < idx + 1 && ms[j] == m {
+                let j = choose|j: int| 0 <= j < idx + 1 && ms[j] == m;
+                assert(j < idx);
+            }
+        }
+    }
+    assert forall|m: M| post.ents().contains_key(m) implies nz(#[trigger] post.ents()[m]@) && post.ents()[m]@ != SMap::<A, u64>::empty() by {
+        if m != member { assert(pre.ents().contains_key(m)); assert(post.ents()[m] == pre.ents()[m]); }
+        else {
+            let e = pre.ec(member);
+            let e2 = vapp(e, a, n);
+            assert(nz(e)) by { if pre.ents().contains_key(member) { assert(nz(pre.ents()[member]@)); } }
+            assert forall|b: A| e2.contains_key(b) implies #[trigger] e2[b] > 0 by { if b != a { assert(e.contains_key(b)); } }
+            if cnt(e, a) < n { assert(e2.contains_key(a)); } else { assert(e.contains_key(a)); }
+        }
+    }
+}
+
+pub proof fn lemma_add_mid_wf<M: Hash + Eq, A: Ord + Hash>(s: Orswot<M, A>)
+    ensures true,
+{}
 
 /// vsub of an nz clock is nz
 pub proof fn c10_vsub_nz<A>(x: SMap<A, u64>, c: SMap<A, u64>)
